@@ -50,7 +50,7 @@ Classify(o) == CASE o = "ok" -> "healthy"
                  [] o \in {"refuse", "timeout"} -> "offline"
 
 \* calculateBackoff / markEndpointUnhealthy: interval for THIS failure and multiplier for the next
-FailInterval(m) == IF m <= 1 THEN ci ELSE Min(ci * m, MaxBackoff)
+FailInterval(m) == IF m <= 1 THEN Min(ci, MaxBackoff) ELSE Min(ci * m, MaxBackoff)   \* capped from the first failure on
 FailMult(m)     == IF m <= 1 THEN 2 ELSE Min(m * 2, MaxMult)
 
 Init == /\ ci \in CIs /\ status = "unknown" /\ cf = 0 /\ mult = 1 /\ wait = 0 /\ lastIv = 0
@@ -163,7 +163,7 @@ Mul(f) == CASE f = 1 -> 1 [] f = 2 -> 2 [] f = 3 -> 4 [] f = 4 -> 8 [] OTHER -> 
 Schedule == slowSeen \/
             /\ (status = "healthy" => lastIv = ci /\ cf = 0 /\ mult = 1)
             /\ (cf >= 1 /\ cf < CapCF => lastIv = Min(ci * Mul(cf), MaxBackoff))
-            /\ wait <= MaxBackoff
+            /\ wait <= (IF ci > MaxBackoff THEN ci ELSE MaxBackoff)    \* (a healthy endpoint waits ci, which may exceed the cap)
 \* (c) real probing at bounded intervals: a due round is real whenever the breaker admits, synthetic
 \*     failures do not extend the breaker, and (under a scheduler that runs a round after every
 \*     tick) the backend is never left unprobed longer than backoff cap + breaker timeout + one tick
@@ -173,7 +173,7 @@ SyntheticIsQuiet == [][(act' = "Round" /\ ~real') => hbSF' = hbSF /\ hbF' = hbF]
 RecoveryCallback == [][act' # "Init" => cb' = IF status' = "healthy" /\ status \notin {"healthy", "unknown"} THEN CbInc(cb) ELSE cb]_vars
 
 TypeOK == /\ status \in {"unknown", "healthy", "unhealthy", "offline"}
-          /\ cf \in 0..CapCF /\ mult \in {1, 2, 4, 8, 12} /\ wait \in 0..MaxBackoff
+          /\ cf \in 0..CapCF /\ mult \in {1, 2, 4, 8, 12} /\ wait \in 0..(IF ci > MaxBackoff THEN ci ELSE MaxBackoff)
 
 -----------------------------------------------------------------------------
 (* MC with a ticking scheduler: every Tick is followed by a Round; the proxy only reports   *)
